@@ -427,6 +427,11 @@ func c10NumberFormsCase() *Case {
 		{"0", "7", "-5", "12345"},
 		{"0x0", "0x1F", "0x40f", "0xabcdef", "0xABCDEF", "0x9a8B7c6D5e4F", "0xf", "0xFf0"},
 		{"(", "0xdeadbeef", "+", "-1", ")", "*", "0x10"},
+		// '%' and the other operator characters are tokens of their own
+		{"(", "10", "%", "3", ")"},
+		{"(", "NUM_ROOMS", "+", "1", ")", "%", "NUM_FLOORS", "/", "2", "^", "MASK", "~", "x"},
+		// identifiers and numbers with decimal digits outside ASCII are one token each
+		{"VAR_ROOM\uff11", "\uff11\uff12", "FLAG_DOOR\u0663_OPEN", "-\u0663", "1\u0663"},
 	}
 	var body []Stmt
 	var cmds []*Atom
@@ -446,7 +451,7 @@ func c10NumberFormsCase() *Case {
 		for i, f := range forms {
 			args := strings.Join(f, ", ")
 			if f[0] == "(" {
-				args = "( 0xdeadbeef + -1 ) * 0x10"
+				args = strings.Join(f, " ")
 			}
 			want = append(want, cat("\t", cmds[i].Val, " ", args))
 		}
